@@ -35,7 +35,7 @@ FAULT_OPS = ("alloc", "clock_tick", "clock_jump", "clock_freeze")
 # (probes "epoch_address_reused" / "ephemeral_id" only fire if the code under test calls id() on temporaries,
 #  which the repaired tree no longer does; they are kept for mutants and not required to be non-zero)
 PROBES = ["refinement_rounds_ge_2", "timeout_fired", "clock_went_backwards",
-          "symmetric_family", "more_than_1000_automorphisms", "same_hypergraph_object_reanalysed", "network_edited_between_analyses", "call_relying_on_signature_defaults", "analyser_object_reused", "depth_limited_call", "wl_checked", "twin_compared", "neighbour_compared", "flagged_partial_answer", "slow_clock_default_timeout"]
+          "symmetric_family", "regular_graph_zoo", "analyser_attribute_rekeyed", "more_than_1000_automorphisms", "same_hypergraph_object_reanalysed", "network_edited_between_analyses", "call_relying_on_signature_defaults", "analyser_object_reused", "depth_limited_call", "wl_checked", "twin_compared", "neighbour_compared", "flagged_partial_answer", "slow_clock_default_timeout"]
 REAL = ["synkit.CRN.Topo.wl_canon.WLCanonicalizer / wl_canonical (sound checks only: isomorphic to view, colour classes coarsen true orbits, estimate >= true count, twin histograms equal)",
         "synkit.CRN.Topo.canon.CRNCanonicalizer (_init_part/_sig/_refine/_label/_search/_canon, summary/graph/orbits)",
         "synkit.CRN.Topo.automorphism.CRNAutomorphism.summary / has_nontrivial_automorphism / detect_automorphisms",
@@ -145,6 +145,25 @@ def gen_net(rng, deep: bool = False) -> Net:
 
 ALL_SPECIES = [chr(ord("A") + i) for i in range(6)]
 
+# regular graphs: colour refinement sees nothing in them, their automorphism groups differ wildly
+ZOO = {
+    "frucht": [(0, 1), (0, 6), (0, 7), (1, 2), (1, 7), (2, 3), (2, 8), (3, 4), (3, 9), (4, 5), (4, 9), (5, 6), (5, 10),
+               (6, 10), (7, 11), (8, 9), (8, 11), (10, 11)],                       # 12 nodes, cubic, only the identity
+    "petersen": [(0, 1), (1, 2), (2, 3), (3, 4), (4, 0), (0, 5), (1, 6), (2, 7), (3, 8), (4, 9), (5, 7), (7, 9), (9, 6), (6, 8), (8, 5)],  # 120
+    "cube": [(0, 1), (1, 2), (2, 3), (3, 0), (4, 5), (5, 6), (6, 7), (7, 4), (0, 4), (1, 5), (2, 6), (3, 7)],       # 48
+    "prism": [(0, 1), (1, 2), (2, 0), (3, 4), (4, 5), (5, 3), (0, 3), (1, 4), (2, 5)],                                   # 12
+    "two_triangles": [(0, 1), (1, 2), (2, 0), (3, 4), (4, 5), (5, 3)],                                                     # 72
+}
+
+
+def zoo_net(name: str) -> "Net":
+    net = []
+    for u, v in ZOO[name]:
+        a, b = "S%d" % u, "S%d" % v
+        net.append({"id": None, "rule": "r", "r": {a: 1}, "p": {b: 1}})
+        net.append({"id": None, "rule": "r", "r": {b: 1}, "p": {a: 1}})
+    return net
+
 
 def twin_map(rng) -> Dict[str, str]:
     c = rng.random()
@@ -193,6 +212,22 @@ def neighbour_of(net: Net, rng) -> Net:
 
 def generate(seed: int, tier: str = "quick") -> Dict[str, Any]:
     rng = rng_for(seed, "c18", "gen")
+    if rng.random() < 0.012:
+        # zoo run: species view of a regular graph, VF2-based analyser only (the IR search is too slow on them)
+        name = rng.choice(sorted(ZOO))
+        net = zoo_net(name)
+        names = sorted({s_ for rx in net for s_ in list(rx["r"]) + list(rx["p"])})
+        perm = list(names)
+        rng.shuffle(perm)
+        tw = [{"id": None, "rule": "r", "r": {perm[names.index(a)]: c for a, c in rx["r"].items()},
+               "p": {perm[names.index(a)]: c for a, c in rx["p"].items()}} for rx in net]
+        rng.shuffle(tw)
+        cfg = {"net": net, "twin": tw, "nbr": net[:-2], "twin_map": {}, "persistent_objects": True, "zoo": name}
+        ops = []
+        for i_, api in enumerate(rng.sample(["summary", "nontrivial", "iter", "detect"], 3)):
+            ops.append({"op": "aut", "s": derive(seed, "op", i_), "which": rng.choice(["net", "twin"]), "flags": [False, True, False],
+                        "timeout": None, "max_count": 5000, "api": api, "reuse": rng.random() < 0.5, "bare": rng.random() < 0.5})
+        return {"cfg": cfg, "ops": ops}
     deep = tier == "thorough" and rng.random() < 0.4
     net = gen_net(rng, deep)
     tm = twin_map(rng)
@@ -256,6 +291,8 @@ def generate(seed: int, tier: str = "quick") -> Dict[str, Any]:
                         "api": rng.choice(["summary", "summary", "graph", "canonical"]),
                         "max_depth": rng.choice([None, None, None, None, 0, 1, 2, 3]), "reuse": rng.random() < 0.6,
                         "bare": rng.random() < 0.4})
+            if rng.random() < 0.08:
+                ops[-1]["rekey"] = True
         else:
             ops.append({"op": "aut", "s": s(), "which": which, "flags": list(flags), "timeout": (tmo if rng.random() < 0.7 else "default"),
                         "max_count": rng.choice([100, 1000, 5000, 3]),
@@ -505,6 +542,8 @@ def _run(case: Dict[str, Any], sim: Sim, world: World, clock: SimClock) -> None:
             sim.probe("network_edited_between_analyses")
             sim.event("edit", rx)
             continue
+        if cfg.get("zoo"):
+            sim.probe("regular_graph_zoo")
         which = op["which"]
         fl = op.get("flags") or [cfg.get("include_rule", False), cfg.get("include_stoich", True), cfg.get("integer_ids", False)]
         bip, sto, iid = bool(fl[0]), bool(fl[1]), bool(fl[2])
@@ -645,6 +684,21 @@ def _run(case: Dict[str, Any], sim: Sim, world: World, clock: SimClock) -> None:
             sim.state(("canon", bip, sto, which, flagged, T["count"] if not T["capped"] else -1, Gv.number_of_nodes(), Gv.number_of_edges()))
             sim.event("canon", {"which": which, "api": op["api"], "flagged": flagged,
                                 "count": (s["automorphism_count"] if s else None), "sig": (canon_sig(s["canon_graph"], bip, sto) if (s and not flagged) else None)})
+            if op.get("rekey") and bip and unlimited and s is not None and not flagged and not T["capped"]:
+                # the attribute selection is a public attribute of the object: a caller narrows it on a warmed object,
+                # asks again, widens it back, asks again
+                sim.probe("analyser_attribute_rekeyed")
+                g_blind = view_ref(Gv, True, False)
+                auts_b = gr.automorphisms(g_blind, limit=6001)
+                for keys, want_n, want_orb in ((("role",), len(auts_b), gr.orbits_of(g_blind.nodes, auts_b)),
+                                               (("role", "stoich"), T["count"], T["orbits"])):
+                    c.edge_attr_keys = keys
+                    s_k = c.summary()
+                    if want_n > 6000 or s_k["early_stop"]:
+                        continue
+                    if s_k["automorphism_count"] != want_n or as_orbit_set(s_k["orbits"]) != want_orb:
+                        raise Violation(PROP, site, "automorphism_count_wrong", "bipartite view; edge_attr_keys re-assigned on a used object",
+                                        {"keys": list(keys), "got": s_k["automorphism_count"], "true": want_n, "net": nets[which]})
             if s is not None:
                 scramble(s)
         else:  # aut
